@@ -33,7 +33,38 @@ def run(r: Run):
         formula.run_display(r)
     else:
         formula.run_parse(r, "C05")
+    deep_probe(r)
     return r.finish(RULES["C05"])
+
+
+def deep_probe(r: Run):
+    """nesting far beyond what the exhaustive and random streams hold (those go to depth 3000): the parser recurses
+    once per group level, so the question is whether the recursion is bounded by anything but the text.  Implementation
+    only (the Lean model of a 60 000-character text is quadratic too); one child process per depth."""
+    from .common import cps
+    outs = {}
+    for depth in (1000, 30000):
+        s = "(" * depth + "C" + ")" * depth
+        line = f"parse\t{cps(s)}"
+        il = r.run_lines(r.harness_bin(), "exec", [line], "harness", extra_args=("formula",), stall=300, timeout=900)[0]
+        outs[depth] = il[:60]
+        r.case(("deep", depth, il.split(" ")[0].split("\t")[0]), {"depth": depth, "impl": il[:80]})
+        if il.startswith("abort") or il in ("timeout", "panic"):
+            r.violation("total", {"input": "'(' * N + 'C' + ')' * N", "nesting_depth_at_least": 10000 if depth >= 10000 else depth},
+                        f"parsing {depth} nested groups ('(' * {depth} + 'C' + ')' * {depth}): the process died ({il[:40]}) — "
+                        f"one recursion level per group level",
+                        expected="ok C:0=1 (a well-formed formula), or at worst an error value",
+                        observed={"lines": [line], "impl": il[:100]})
+            for o in r.obligations:
+                pass
+            r.notes.setdefault("deep_probe_failed", []).append(depth)
+        elif il != "ok C:0=1":
+            r.violation("deep", {"depth": depth}, f"{depth} nested groups around C parse to {il[:60]}", observed={"lines": [line], "impl": il[:100]})
+    r.coverage["deep_nesting_probe"] = outs
+    if r.notes.get("deep_probe_failed"):
+        r.oblige("deep nesting: the parser survives 1000 and 30000 nested groups", "corr", False, str(outs))
+    else:
+        r.oblige("deep nesting: the parser survives 1000 and 30000 nested groups", "corr", True)
 
 
 replay = formula.replay
